@@ -496,6 +496,34 @@ def _concat(objs, axis=0, **k):
     return out
 
 
+NAN = float("nan")
+
+
+def _infer(col):
+    """pandas' dtype inference for a column built from Python objects, as far as VALUES are concerned: a column whose
+    elements are all numbers (int/float, no bool, ints within 64 bits) or None - with at least one number and at least
+    one None - becomes a float column in which None is stored as NaN.  (Numbers keep their numeric value - 0 becomes
+    0.0 - which the harnesses treat as the same value.)  Any other mix (strings, tuples, bools, all-None, huge ints)
+    is stored as given (object dtype).  Measured against pandas 2.x in findings/F7_demo.py."""
+    has_none = has_num = False
+    for v in col:
+        if v is None:
+            has_none = True
+        elif isinstance(v, bool):
+            return col
+        elif isinstance(v, (int, np.integer)):
+            if not (-2 ** 63 <= v < 2 ** 63):
+                return col
+            has_num = True
+        elif isinstance(v, (float, np.floating)):
+            has_num = True
+        else:
+            return col
+    if has_none and has_num:
+        return [NAN if v is None else v for v in col]
+    return col
+
+
 class Frame:
     """stand-in for pandas.DataFrame (contract above)"""
     made = []
@@ -518,7 +546,7 @@ class Frame:
                 raise ValueError("column must be 1-dimensional")
             col = value                    # worst case allowed by the contract: no copy
         elif isinstance(value, (list, tuple)):
-            col = list(value)              # pandas copies a list/tuple into the frame, element i for row i
+            col = _infer(list(value))      # pandas copies a list/tuple into the frame, element i for row i (dtype inference below)
         elif value is None or isinstance(value, (int, float, str, bool)):
             if self.n is None:
                 raise StubLimit("scalar broadcast into an empty frame")
